@@ -33,6 +33,7 @@ func main() {
 	gens := []gen{
 		{"Orch.lean", extractOrch},
 		{"fingerprints.json", extractFingerprints},
+		{"Facts.lean", extractFacts},
 	}
 	for _, g := range gens {
 		s, err := g.fn(*repo)
